@@ -43,7 +43,7 @@ func (p *c08) Directed() []string {
 	return []string{"two-languages-different-refs", "two-webhook-headers", "many-issues-one-node", "case-variant-json-keys", "clone-with-ui-and-localization", "custom-number-format-then-default", "many-results-fields-groups", "number-format-comma-space", "number-format-comma-dot", "number-format-dot-space", "number-format-dot-comma",
 		// a session that recreates @webhook from a result's extra after being re-read (the recreated value is marked
 		// deprecated), for every kind of bare JSON body, each followed by a session that reads the same kinds of JSON value
-		"reread-webhook-true", "json-value-readers-1", "reread-webhook-false", "json-value-readers-2", "reread-webhook-null", "json-value-readers-3", "reread-webhook-number", "reread-webhook-string", "reread-webhook-array", "reread-webhook-empty", "json-value-readers-4"}
+		"reread-webhook-true", "json-value-readers-1", "reread-webhook-false", "json-value-readers-2", "reread-webhook-null", "json-value-readers-3", "reread-webhook-number", "reread-webhook-string", "reread-webhook-array", "reread-webhook-empty", "json-value-readers-4", "legacy-extra-created-on-ties"}
 }
 
 func (p *c08) Floors(tier string) []string {
@@ -76,7 +76,7 @@ func (p *c08) directed(name string) *gen.Scenario {
 		loc(f, "kin", m["uuid"].(string), "text", "Muraho @fields.joined @globals.nope")
 		return &gen.Scenario{Assets: d.BaseAssets(f), Trigger: d.Manual("A", nil)}
 	case "two-webhook-headers":
-		return &gen.Scenario{Assets: d.BaseAssets(d.Flow("A", "messaging", d.Node("a1", []any{act("w", "call_webhook", gen.M{"method": "POST", "url": "http://localhost/?cmd=success", "headers": gen.M{"Accept": "@fields.age", "X-Name": "@contact.name", "X-Org": "@globals.org_name", "Authorization": "Token @globals.nope", "X-Bad": "@(1 +"}, "body": "@(json(results))", "result_name": "webhook"})}, nil, d.Exit("a1x", "")))), Trigger: d.Manual("A", nil)}
+		return &gen.Scenario{Assets: d.BaseAssets(d.Flow("A", "messaging", d.Node("a1", []any{act("w", "call_webhook", gen.M{"method": "POST", "url": "http://localhost/?cmd=success", "headers": gen.M{"Accept": "@fields.age", "X-Name": "@contact.name", "X-Org": "@globals.org_name", "Authorization": "Token @globals.nope", "X-Bad": "@(1 +", "X-Bad-2": "@(2 *", "X-Div": "@(1 / 0)", "X-Nope": "@contact.nope", "X-Old": "@(results.q1.categories)"}, "body": "@(json(results))", "result_name": "webhook"})}, nil, d.Exit("a1x", "")))), Trigger: d.Manual("A", nil)}
 	case "many-issues-one-node":
 		c := d.Cat("Other", "r1x")
 		return &gen.Scenario{Assets: d.BaseAssets(d.Flow("A", "messaging", d.Node("r1", []any{
@@ -129,6 +129,16 @@ func (p *c08) directed(name string) *gen.Scenario {
 			d.SendMsg("m1", "@trigger.params.vip @(trigger.params.blocked) @(trigger.params.ref) @trigger.params.n @(trigger.params.s) @(trigger.params.list) @(trigger.params.obj) @(trigger.params.flags[0]) @(trigger.params.flags[1])"),
 			d.SendMsg("m2", "@webhook.json.vip @(webhook.json.blocked) @(webhook.json.ref) @(parse_json(\"true\")) @(parse_json(\"[false, null, 0]\")[0]) @(if(trigger.params.vip, 1, 2)) @(1 = 1) @(1 = 2) @(boolean(\"\"))"),
 		}, nil, d.Exit("a1x", "")))), Trigger: t}
+	case "legacy-extra-created-on-ties":
+		// results created at the same time (a clock of limited resolution) whose extras share keys: @legacy_extra is rebuilt
+		// from them, in order of creation, when the session is read back
+		var acts []any
+		for i, cmd := range []string{"success", "default", "flags", "casekeys", "array"} {
+			acts = append(acts, act(fmt.Sprint("w", i), "call_webhook", gen.M{"method": "GET", "url": "http://localhost/?cmd=" + cmd, "result_name": fmt.Sprint("Hook ", i)}))
+		}
+		return &gen.Scenario{Reread: true, Coarse: 1000, Assets: d.BaseAssets(d.Flow("A", "messaging", d.Node("a1", acts, nil, d.Exit("a1x", "a2")), d.WaitNode("a2", "a3", nil),
+			d.Node("a3", []any{d.SendMsg("m", "@legacy_extra.n @legacy_extra.ok @legacy_extra.vip @(json(legacy_extra))")}, nil, d.Exit("a3x", "")))),
+			Trigger: d.Manual("A", nil), Resumes: []gen.M{d.MsgResume(0, "x")}}
 	case "many-results-fields-groups":
 		var acts []any
 		for i, n := range []string{"Zeta", "alpha", "Beta", "gamma", "Delta", "eps", "Eta"} {
@@ -326,6 +336,8 @@ func (p *c08) outputsN(scen *gen.Scenario, seed int64, rot int, res *fw.Result, 
 			}
 		}
 	}
+	// the bundled service implementations over canned remote answers
+	serviceOutputs(func(label string, v any) { add(label, v) })
 	// queries over what a group definition does not use: group membership, flow, history, several URN schemes, every field at once
 	gname := "Testers"
 	for _, g := range assetList(scen.Assets, "groups") {
@@ -529,6 +541,15 @@ func (p *c08) scenOf(c fw.Case) *gen.Scenario {
 						if am["type"] == "call_webhook" {
 							if r.Chance(0.7) {
 								am["headers"] = gen.M{"Accept": "application/json", "X-Name": "@contact.name", "X-Age": "@fields.age", "X-Org": "@globals.org_name"}
+								if r.Chance(0.5) {
+									// several header values whose evaluation logs something (errors, warnings): the log has an order
+									for _, h := range []string{"X-Bad:@(1 +", "X-Bad-2:@(2 *", "X-Div:@(1 / 0)", "X-Nope:@contact.nope", "X-Old:@(results.q1.categories)"} {
+										if r.Chance(0.6) {
+											kv := strings.SplitN(h, ":", 2)
+											am["headers"].(gen.M)[kv[0]] = kv[1]
+										}
+									}
+								}
 							}
 							if r.Chance(0.3) {
 								am["url"] = "http://localhost/?cmd=casekeys"
@@ -542,6 +563,9 @@ func (p *c08) scenOf(c fw.Case) *gen.Scenario {
 				}
 			}
 		}
+	}
+	if c.Directed == "" && c.Index%5 == 2 {
+		scen.Coarse = []int{4, 16, 1000}[c.Index/5%3] // a clock of limited resolution: neighbouring events / results carry the same time
 	}
 	return scen
 }
